@@ -589,7 +589,7 @@ def oracle(spec, T, loader):
             r = res.get(key)
             sig = sig0
             if b['attr'] in T['c11_listy'] and r is not None and r['value'] != b['value'] and r['value'] == u' '.join(b['value']):
-                # the value itself was changed by the attribute converter (C15's finding KF-C15-2), clash or not
+                # the value itself was changed by the attribute converter (cnv_NCNames before d63f896), clash or not: never a known finding
                 sig = 'respaced:%s' % b['attr']
             if r is None and where == 'loaded document' and region in ('cauto', 'sauto'):
                 # in memory there is one container: the owner is found under either region name
